@@ -38,19 +38,26 @@ func ReadDeletedRows(data []byte, columns []Column) []DeletedRow {
 	return deleted
 }
 
-// ScanAllDeletedRows scans entire data directory for deleted rows
+// ScanAllDeletedRows scans entire data directory for deleted rows: the result has the databases,
+// tables and columns DumpDataDir reports (same options, same filters), and the Rows of every table
+// are its deleted-but-not-vacuumed rows (the rows ReadDeletedRows recovers), RowCount their number.
 func ScanAllDeletedRows(dataDir string, opts *Options) (*DumpResult, error) {
-	opts = withDefaults(opts)
-	
-	// Use regular dump but include deleted rows
-	result, err := DumpDataDir(dataDir, opts)
-	if err != nil {
-		return nil, err
-	}
+	return dumpDataDirRows(dataDir, opts, readDeletedTableRows)
+}
 
-	// Mark this as including deleted rows
-	// The actual deleted row detection happens in ReadRows when we pass visibleOnly=false
-	return result, nil
+// readDeletedTableRows returns the decoded rows of the tuples of a table's heap file whose deleter
+// committed.  A table without columns still has rows: each of its tuples is the empty row
+// (ReadDeletedRows leaves Data nil when there is no column to decode).
+func readDeletedTableRows(data []byte, cols []Column) []map[string]interface{} {
+	var rows []map[string]interface{}
+	for _, d := range ReadDeletedRows(data, cols) {
+		row := d.Data
+		if row == nil {
+			row = map[string]interface{}{}
+		}
+		rows = append(rows, row)
+	}
+	return rows
 }
 
 // ReadRowsWithDeleted returns both visible and deleted rows separately
